@@ -286,7 +286,7 @@ theorem isSub_exact_counterexample : ¬ isSub_exact := by
 /-! ## 6. Reflexivity (the part that holds) -/
 
 /-- `x == x` on regular types -/
-theorem beq_refl' (s : Ty) (h : reg s = true) : beq s s = true := beq_refl s h
+theorem beq_self (s : Ty) (h : reg s = true) : beq s s = true := beq_refl s h
 
 /-- kinds of receivers on which `is_subtype` is reflexive: everything but type variables,
     projections and function types -/
